@@ -103,9 +103,9 @@ func init() {
 	checks["c19"] = checkDef{"C19",
 		"programs of succeeding and failing object-changing requests (put in four encodings, copy, delete, batch delete, put/delete tagging; allowed and denied callers, missing buckets, bad signatures) against a gateway configured with a local webhook endpoint; after every request the records received are compared with Model.Gw.step's event list (event name, bucket, key; size and ETag for put/copy/complete). Four filter configurations: none, exact names, wildcards, exact-overrides-wildcard. Non-trivial = program reaches the bucket; distinct by op list.",
 		[]checkFn{
-			fam("events-nofilter", true, nil, 1901, 30, 1500),
-			fam("events-exact", false, map[string]bool{"s3:ObjectCreated:Put": true, "s3:ObjectRemoved:Delete": true, "s3:ObjectTagging:Put": false}, 1902, 12, 600),
-			fam("events-wildcard", false, map[string]bool{"s3:ObjectCreated:*": true, "s3:ObjectRemoved:*": false, "s3:ObjectTagging:*": true}, 1903, 12, 600),
-			fam("events-override", false, map[string]bool{"s3:ObjectCreated:*": true, "s3:ObjectCreated:Copy": false, "s3:ObjectRemoved:*": false, "s3:ObjectRemoved:DeleteObjects": true}, 1904, 12, 600),
+			fam("events-nofilter", true, nil, 1901, 80, 1500),
+			fam("events-exact", false, map[string]bool{"s3:ObjectCreated:Put": true, "s3:ObjectRemoved:Delete": true, "s3:ObjectTagging:Put": false}, 1902, 30, 600),
+			fam("events-wildcard", false, map[string]bool{"s3:ObjectCreated:*": true, "s3:ObjectRemoved:*": false, "s3:ObjectTagging:*": true}, 1903, 30, 600),
+			fam("events-override", false, map[string]bool{"s3:ObjectCreated:*": true, "s3:ObjectCreated:Copy": false, "s3:ObjectRemoved:*": false, "s3:ObjectRemoved:DeleteObjects": true}, 1904, 30, 600),
 		}}
 }
